@@ -732,6 +732,7 @@ func TestC07(t *testing.T) {
 		}
 	}
 
+	runPingSched(t, rep, env)
 	rep.Add(evals, nontrivial, int64(len(states)), transitions)
 	if err := rep.Finish(env); err != nil {
 		t.Fatal(err)
